@@ -187,10 +187,15 @@ func runC14(rc *runCtx) *RunResult {
 			}
 			rc.inc("second_bursts", 1)
 		}
-		ntasks := 2 + int(t.Uint(5))
+		// thorough tier: deeper bursts (more tasks, longer scripts)
+		maxExtraTasks, maxOps := uint32(5), uint32(6)
+		if rc.tier == "thorough" {
+			maxExtraTasks, maxOps = 7, 10
+		}
+		ntasks := 2 + int(t.Uint(maxExtraTasks))
 		scripts := make([][]Op, ntasks)
 		for k := range scripts {
-			n := 1 + int(t.Uint(6))
+			n := 1 + int(t.Uint(maxOps))
 			scripts[k] = make([]Op, n)
 			for i := range scripts[k] {
 				scripts[k][i] = drawQuery(g, w.descs, true)
